@@ -1365,8 +1365,8 @@ def check_chain_derefs(chk, prog, unit, only=None):
             if base.get("k") == "member" and X.strip(base["ch"][0]).get("d") in g.foreign:
                 return
             ok = g.known_nonnull(st, base)
-            if not ok and X.apath(base) is not None and ("nn", X.apath(base)) in tested.get(n["i"], ()):
-                ok = True
+            if not ok and g.pos(base) is None and X.apath(base) is not None and ("nn", X.apath(base)) in tested.get(n["i"], ()):
+                ok = True             # (only where the position analysis has nothing to say about the pointer)
             key = canon(f, n)
             prev = seen.get(key)
             if prev is None or (prev[0] and not ok):
